@@ -93,7 +93,7 @@ def norm(segs):
     return out
 
 
-def actual(doc):
+def actual(doc, anchor=(2, 12)):
     sc = Scene(doc)
     segs = []
     texts = {}
@@ -112,8 +112,8 @@ def actual(doc):
                 other.append('rect class %r rx %s' % (e[1], e[6]))
             segs += [((x, y), (x + w, y)), ((x, y + h), (x + w, y + h)), ((x, y), (x, y + h)), ((x + w, y), (x + w, y + h))]
         elif t == 'text':
-            cx = (e[2] - 2) / 8
-            cy = (e[3] - 12) / 16
+            cx = (e[2] - anchor[0]) / 8
+            cy = (e[3] - anchor[1]) / 16
             if cx.denominator != 1 or cy.denominator != 1:
                 other.append('text anchor %s,%s' % (e[2], e[3]))
                 continue
@@ -134,7 +134,7 @@ def check_case(ctx, case):
         return 'conversion failed: ' + r.fail_text()
     rs, rt, nstroke = ref(grid)
     try:
-        as_, at, oth, nrect = actual(r.out)
+        as_, at, oth, nrect = actual(r.out, ctx.anchor())
     except Malformed as e:
         return 'output not parseable: %s' % e
     tags = []
